@@ -55,7 +55,11 @@ def run(ctx: Ctx) -> None:
     # ---------------------------------------------------------------- R15.2
     ctx.rule("R15.2", "lexer prototype: built once under `is None`, only cloned, clone re-bound before use; Lexer.clone un-shares the rule tables", minimum=4)
     lex = repo.mod("lexer")
-    new = lex.func("PlyLexer.__new__")
+    # the method of the lexer class that builds the shared prototype: the one that calls lex.lex(...)
+    builders = [(q, f) for q, f in lex.functions() if q.startswith("PlyLexer.") and q.count(".") == 1 and any(isinstance(c, ast.Call) and attr_chain(c.func) == ("lex", "lex") for c in walk_local(f))]
+    if len(builders) != 1:
+        raise AnalysisError("anchor vanished: the single method of PlyLexer that builds the prototype lexer with lex.lex(...)")
+    bqual, new = builders[0]
     cfg = CFG(new)
     stores = [n for n in cfg.nodes if n.kind == "stmt" and isinstance(n.stmt, ast.Assign) and any(attr_chain(t) in (("cls", "_lexer"), ("PlyLexer", "_lexer")) for t in n.stmt.targets)]
     ok = len(stores) == 1
@@ -77,12 +81,12 @@ def run(ctx: Ctx) -> None:
             ds = [cfg.nodes[i] for i in rd_new.get(stores[0].id, {}).get(val.id, ())]
             val = ds[0].stmt.value if len(ds) == 1 and isinstance(ds[0].stmt, ast.Assign) else val
         ok = bool(guard) and isinstance(val, ast.Call) and attr_chain(val.func) == ("lex", "lex")
-    ctx.ob("R15.2", "lexer:PlyLexer.__new__|prototype assigned once, under `_lexer is None`", ok, msg="the shared lexer prototype can be rebuilt or replaced after first use", node=new, mod=lex)
+    ctx.ob("R15.2", f"lexer:{bqual}|prototype assigned once, under `_lexer is None`", ok, msg="the shared lexer prototype can be rebuilt or replaced after first use", node=new, mod=lex)
     for m in repo.modules.values():
         for qual, fn in m.functions():
             for t, st in stores_in(fn):
                 ch = attr_chain(t)
-                if ch and ch[-1] == "_lexer" and not (m is lex and qual == "PlyLexer.__new__"):
+                if ch and ch[-1] == "_lexer" and not (m is lex and qual == bqual):
                     ctx.ob("R15.2", f"{m.name}:{qual}|writes _lexer", False, msg=f"`{short(st)}` replaces the shared lexer prototype", node=st, mod=m)
     reads = []
     for m in repo.modules.values():
@@ -121,12 +125,12 @@ def run(ctx: Ctx) -> None:
     clone_assign = [n for n in cfg.nodes if n.kind == "stmt" and isinstance(n.stmt, ast.Assign) and isinstance(n.stmt.value, ast.Call) and isinstance(n.stmt.value.func, ast.Attribute) and n.stmt.value.func.attr == "clone"]
     begins = [n for n in cfg.nodes if n.kind == "stmt" and isinstance(n.stmt, ast.Expr) and isinstance(n.stmt.value, ast.Call) and isinstance(n.stmt.value.func, ast.Attribute) and n.stmt.value.func.attr == "begin"
               and n.stmt.value.args and isinstance(n.stmt.value.args[0], ast.Constant) and n.stmt.value.args[0].value == "INITIAL"]
-    rets = [n for n in cfg.nodes if n.kind == "stmt" and isinstance(n.stmt, ast.Return)]
-    ok = len(clone_assign) == 1 and bool(begins) and all(any(cfg.dominates(b, r) for b in begins) for r in rets) and all(cfg.dominates(clone_assign[0], b) for b in begins)
+    # every normal way out of the method passes the re-binding
+    ok = len(clone_assign) == 1 and bool(begins) and not cfg.paths_avoiding(cfg.entry, cfg.exit, lambda x: x in begins) and all(cfg.dominates(clone_assign[0], b) for b in begins)
     if ok:
         tgt = attr_chain(clone_assign[0].stmt.targets[0])
         ok = all(attr_chain(b.stmt.value.func.value) == tgt for b in begins)
-    ctx.ob("R15.2", "lexer:PlyLexer.__new__|clone.begin('INITIAL') before the instance is returned", ok,
+    ctx.ob("R15.2", f"lexer:{bqual}|clone.begin('INITIAL') before the instance is returned", ok,
            msg="the per-instance clone is not re-initialised with begin('INITIAL'): its active rule table and error function stay those of the prototype (bound to the first instance ever created)",
            node=new, mod=lex)
     ply = repo.mod("_ply.lex")
